@@ -26,7 +26,7 @@ RULE = ("scenario = history of 4-16 operations: registrations (create(version=fr
         "drafts disagree; non-trivial = >=1 successful registration followed by >=1 dispatch on an OLDER id and >=1 on "
         "the NEW id, with a battery pair on which the two classes disagree; distinct = distinct scenario digests")
 STATE_MEASURE = "hash of (sorted registered ids in the model, number of suspended iterators, last operation kind) per step"
-REQUIRED_PROBES = ("dispatch_on_older_id_after_registration", "dispatch_on_new_id", "unknown_uri_warned",
+REQUIRED_PROBES = ("dispatch_on_id_before_its_registration", "dispatch_on_older_id_after_registration", "dispatch_on_new_id", "unknown_uri_warned",
                    "cli_runs", "validate_calls", "failed_registration_checked", "resume_after_registration",
                    "classes_disagreed_on_battery")
 COMPONENTS = {
@@ -92,10 +92,10 @@ def generate(rng, tier="quick"):
             op["meta"] = rng.choice(["open", "base"])
             op["variant"] = rng.choice([None, "minimum", "type", "maxLength"])
         if k == "validator_for":
-            op["spelling"] = rng.choice(["known", "known", "known", "unknown", "missing", "bool"])
+            op["spelling"] = rng.choice(["known", "known", "known", "unknown", "future", "missing", "bool"])
             op["default"] = rng.choice([None, None, "draft3", "draft4", "new"])
         if k in ("validate", "cli", "validate_cls", "suspend"):
-            op["spelling"] = rng.choice(["known", "known", "known", "unknown", "missing"])
+            op["spelling"] = rng.choice(["known", "known", "known", "unknown", "future", "missing"])
         if k == "cli":
             op["validator"] = rng.choice([None, None, "Draft3Validator", "jsonschema.Draft4Validator", "Draft6Validator"])
             op["pretty"] = rng.random() < 0.2
@@ -176,6 +176,13 @@ def execute(scn):
         sp = op.get("spelling")
         if sp == "missing":
             return None, None
+        if sp == "future":
+            # an id that a LATER operation of this history will register: unknown now, known afterwards
+            for j in range(step + 1, len(scn["ops"])):
+                if scn["ops"][j]["op"] in ("create", "validates"):
+                    probe("dispatch_on_id_before_its_registration")
+                    return uid_of(scn["ops"][j], j) + ("#" if op["hash"] else ""), None
+            sp = "unknown"
         if sp == "unknown":
             return UNKNOWN[op["a"] % len(UNKNOWN)], None
         ids = sorted(model, key=lambda u: (born[u], u))
@@ -210,9 +217,12 @@ def execute(scn):
             yield X.ValidationError("dsim variant keyword %s rejects %r" % (name, instance))
         return kw
 
+    def uid_of(op, step):
+        return "urn:dsim:c20:meta-%d-%d" % (step, op["a"] % 97)
+
     def make_class(op, step, version):
         base = drafts[op["base"]]
-        uid = "urn:dsim:c20:meta-%d-%d" % (step, op["a"] % 97)
+        uid = uid_of(op, step)
         if op["id_hash"]:
             uid += "#"
         idkw = "id" if op["base"] in ("draft3", "draft4") else "$id"
